@@ -69,7 +69,7 @@ func spaces(prop string, thorough bool) []space {
 	}
 	// C15
 	s := []space{
-		{name: "budget-end-P0", uploads: []bool{false, true}, adds: [][]string{{"A"}, {"A", "B"}}, batch: []int{1, 2}, workers: []int{1, 2, 8}, retries: []int{1, 2, 3, 8}, delays: []int{0, 1, 10}, watch: []int{1}, dry: []bool{false}, noEnv: "localfile,begin,adapter", force: true, p: 0, d: 1, sum: -1},
+		{name: "budget-end-P0", uploads: []bool{false, true}, adds: [][]string{{"A"}, {"A", "B"}}, batch: []int{1, 2}, workers: []int{1, 2, 8}, retries: []int{1, 2, 3, 8}, delays: []int{0, 1, 10, -1}, watch: []int{1}, dry: []bool{false}, noEnv: "localfile,begin,adapter", force: true, p: 0, d: 1, sum: -1},
 		{name: "retry-P1-D1", uploads: []bool{false, true}, adds: [][]string{{"A"}, {"A", "B"}, {"A", "A"}}, batch: []int{1, 2}, workers: []int{1, 2, 3}, retries: []int{1, 2, 3}, delays: []int{0, 1}, watch: []int{1}, dry: []bool{false}, noEnv: "localfile,begin,adaptername", expiry: true, p: 1, d: 1, sum: -1},
 		{name: "retry-P0-D2", uploads: []bool{false}, adds: [][]string{{"A"}, {"A", "B"}}, batch: []int{1, 2}, workers: []int{1, 2}, retries: []int{2}, delays: []int{0, 1}, watch: []int{1}, dry: []bool{false}, noEnv: "localfile,begin,adaptername", expiry: true, p: 0, d: 2, sum: -1},
 	}
